@@ -164,9 +164,24 @@ def json_spec(shape, timeout):
                 meta={"codec": "json", "kind": "roundtrip", "shape": shape})
 
 
+def _quick_bounds(pre):
+    """the quick tier's smaller ranges (every int / byte ends up realised by str() / bytes concatenation, so each range multiplies
+    the path count): first int keeps sign and 1-2 digits, a second int is 0/1, byte strings lose one byte"""
+    out = []
+    for p in pre:
+        p = p.replace("-9 <= a <= 99", "-9 <= a <= 12").replace("-9 <= b <= 99", "0 <= b <= 1")
+        p = p.replace("len(b) <= 2", "len(b) <= 1").replace("len(b) <= 3", "len(b) <= 2").replace("len(a) <= 2", "len(a) <= 1")
+        out.append(p)
+    return out
+
+
 def run(rep, tier, seed):
     quick = tier == "quick"
     to = 45 if quick else 240
+    if quick:
+        for table in (SHAPES, EDN_SHAPES, JSON_SHAPES):
+            for k, v in list(table.items()):
+                table[k] = (v[0], _quick_bounds(v[1])) + tuple(v[2:])
     rep.encoded_lisp("src/basilisp/contrib/bencode.lpy", ["encode", "decode", "decode-all", "decode*", "slice"], "compiled from source; run on proxies")
     rep.encoded_lisp("src/basilisp/edn.lpy", ["write-string", "read-string"], "compiled from source; run on proxies")
     rep.encoded_lisp("src/basilisp/json.lpy", ["write-str", "read-str"], "compiled from source; run on proxies (Python's json is environment)")
@@ -179,8 +194,8 @@ def run(rep, tier, seed):
         specs.append(edn_spec(sh, to))
     for sh in JSON_SHAPES:
         specs.append(json_spec(sh, to))
-    rep.bounds = {"bencode": "2 messages per stream; ints -9..99 (1-2 digits, sign); byte strings <= 3; every cut position",
-                  "edn/json": "shapes of depth <= 2 with symbolic int/bool/nil leaves; strings <= 2 chars over all of Unicode"}
+    rep.bounds = {"bencode": "2 messages per stream; ints -9..12 quick / -9..99 thorough (1-2 digits, sign); byte strings <= 2 quick / 3 thorough; every cut position",
+                  "edn/json": "shapes of depth <= 2 with symbolic int/bool/nil leaves (first int -9..12 quick / -9..99 thorough, second int 0..1 quick); strings <= 2 chars over all of Unicode"}
     rep.outside = ["EDN floats/ratios/decimals/uuid/inst (C boundary realises them)", "streams of more than 2 messages",
                    "message shapes are enumerated"]
     rep.trusted += ["crosshair-tool 0.0.110 + z3", "reference bencode encoder (12 lines) in vlib/props/c19.py"]
